@@ -16,22 +16,27 @@ import (
 )
 
 type moveAttr struct {
-	name string
-	i    *int64
-	ints []int64
-	f    string // a float attribute whose value is this name
+	name   string
+	i      *int64
+	ints   []int64
+	f      string // a float attribute whose value is this name
+	strs   []string
+	floats []string // a list of float attribute values, each a name
 }
 
 type moveRun struct {
-	c         *Ctx
-	oi        *opInfo
-	ctor      *ssa.Function
-	st        *initState
-	onnx      *types.Package
-	cov       *pcover
-	trace     bool
-	panicked  string
-	dataLists types.Type // element type of the lists that stand for raw backings in Apply
+	c           *Ctx
+	oi          *opInfo
+	ctor        *ssa.Function
+	st          *initState
+	onnx        *types.Package
+	cov         *pcover
+	trace       bool
+	panicked    string
+	dataLists   types.Type // element type of the lists that stand for raw backings in Apply
+	dtype       string     // gorgonia dtype variable the tensors report (default Float32)
+	nameOutputs bool       // the node names its outputs even when there is one only
+	intercept   func(fn *ssa.Function, call *ssa.Call, callee *ssa.Function, args []pval, h *pheap) ([]pval, bool)
 }
 
 func (c *Ctx) newMoveRun(op string) *moveRun {
@@ -67,6 +72,16 @@ type moveOut struct {
 
 // cell walks constructor, Init(attrs) and Apply(inputs); inputs with a nil shape are absent (nil).
 func (m *moveRun) cell(attrs []moveAttr, inputs []*moveTensor) moveOut {
+	outs := m.cellN(attrs, inputs, 1)
+	if len(outs) != 1 {
+		return moveOut{}
+	}
+	return outs[0]
+}
+
+// cellN is cell for an operator with n outputs; a result of one element with followed=false / isErr stands for the
+// whole walk.
+func (m *moveRun) cellN(attrs []moveAttr, inputs []*moveTensor, n int) []moveOut {
 	c := m.c
 	heap := m.st.heap.clone()
 	b := &rtBuilder{c: c, heap: heap, onnx: m.onnx}
@@ -89,14 +104,41 @@ func (m *moveRun) cell(attrs []moveAttr, inputs []*moveTensor) moveOut {
 		if a.f != "" {
 			f["F"] = pval{k: pStr, s: a.f}
 		}
+		if a.floats != nil {
+			var l []pval
+			for _, x := range a.floats {
+				l = append(l, pval{k: pStr, s: x})
+			}
+			f["Floats"] = b.list(l...)
+		}
+		if a.strs != nil {
+			var l []pval
+			for _, x := range a.strs {
+				l = append(l, pval{k: pStr, s: x}) // the []byte of the string, kept as the string
+			}
+			f["Strings"] = b.list(l...)
+		}
 		al = append(al, b.obj(m.onnx, "AttributeProto", f))
 	}
-	node := b.obj(m.onnx, "NodeProto", map[string]pval{"Attribute": b.list(al...)})
+	nodeFields := map[string]pval{"Attribute": b.list(al...)}
+	if n > 1 || m.nameOutputs {
+		var names []pval
+		for i := 0; i < n; i++ {
+			names = append(names, pval{k: pStr, s: fmt.Sprintf("out%d", i)})
+		}
+		nodeFields["Output"] = b.list(names...)
+	}
+	node := b.obj(m.onnx, "NodeProto", nodeFields)
 	p := &pinterp{c: c, budget: 3000000, objects: true, content: true, globals: m.st.globals, cover: m.cov, listsAreSlicesOf: types.Typ[types.Int64], trace: m.trace}
-	if dt, ok := c.dtypeToken("Float32"); ok {
+	dtn := "Float32"
+	if m.dtype != "" {
+		dtn = m.dtype
+	}
+	if dt, ok := c.dtypeToken(dtn); ok {
 		p.contentDtype = dt
 	}
 	m.panicked = ""
+	p.intercept = m.intercept
 	p.onPanic = func(fn *ssa.Function, in ssa.Instruction, what string) {
 		if m.panicked == "" {
 			m.panicked = what + " at " + c.pos(in.Pos())
@@ -104,18 +146,18 @@ func (m *moveRun) cell(attrs []moveAttr, inputs []*moveTensor) moveOut {
 	}
 	res, h := p.run(m.ctor, nil, 0, heap)
 	if h == nil || len(res) != 1 || res[0].k != pObj {
-		return moveOut{}
+		return []moveOut{{}}
 	}
 	recv := res[0]
 	res, h = p.run(m.oi.methods["Init"], []pval{recv, node}, 0, h)
 	if h == nil || len(res) != 1 {
-		return moveOut{}
+		return []moveOut{{}}
 	}
 	if nonNilKind(res[0].k) {
-		return moveOut{followed: true, isErr: true}
+		return []moveOut{{followed: true, isErr: true}}
 	}
 	if res[0].k != pNil {
-		return moveOut{}
+		return []moveOut{{}}
 	}
 	heap = h
 	var in []pval
@@ -141,39 +183,49 @@ func (m *moveRun) cell(attrs []moveAttr, inputs []*moveTensor) moveOut {
 	inList := heap.alloc(append([]pval{}, in...))
 	res, h = p.run(m.oi.methods["Apply"], []pval{recv, inList}, 0, heap)
 	if m.panicked != "" {
-		return moveOut{followed: true}
+		return []moveOut{{followed: true}}
+	}
+	if len(res) == 2 && nonNilKind(res[1].k) && !p.aborted {
+		return []moveOut{{followed: true, isErr: true}} // an error on every path the walk followed
 	}
 	if p.aborted || len(res) != 2 || h == nil {
-		return moveOut{}
+		return []moveOut{{}}
 	}
 	if nonNilKind(res[1].k) {
-		return moveOut{followed: true, isErr: true}
+		return []moveOut{{followed: true, isErr: true}}
 	}
 	if res[1].k != pNil || res[0].k != pList {
-		return moveOut{}
+		return []moveOut{{}}
 	}
 	outs := h.lists[res[0].i]
-	if len(outs) != 1 || outs[0].k != pShaped || outs[0].m == 0 {
-		return moveOut{}
+	if len(outs) != n {
+		return []moveOut{{}}
 	}
-	shl, cont := h.lists[outs[0].j], h.lists[outs[0].m]
-	if shl == nil || cont == nil {
-		return moveOut{}
-	}
-	out := moveOut{followed: true, same: -1}
-	for _, e := range shl {
-		if e.k != pInt {
-			return moveOut{}
+	var result []moveOut
+	for _, o := range outs {
+		if o.k != pShaped || o.m == 0 {
+			return []moveOut{{}}
 		}
-		out.shape = append(out.shape, e.i)
-	}
-	out.elems = append([]pval{}, cont...)
-	for i, v := range in {
-		if v.k == pShaped && v.m == outs[0].m {
-			out.same = i
+		shl, cont := h.lists[o.j], h.lists[o.m]
+		if shl == nil || cont == nil {
+			return []moveOut{{}}
 		}
+		out := moveOut{followed: true, same: -1}
+		for _, e := range shl {
+			if e.k != pInt {
+				return []moveOut{{}}
+			}
+			out.shape = append(out.shape, e.i)
+		}
+		out.elems = append([]pval{}, cont...)
+		for i, v := range in {
+			if v.k == pShaped && v.m == o.m {
+				out.same = i
+			}
+		}
+		result = append(result, out)
 	}
-	return out
+	return result
 }
 
 func elemsString(e []pval) ([]string, bool) {
@@ -773,6 +825,36 @@ func (c *Ctx) gemmTable() (known bool, bad string, cells int) {
 					if !ok || len(got) != M*N {
 						return false, "", cells
 					}
+					// the batch clause (C16): the rows of op(A) are the samples; an element of row i is made of row i of
+					// op(A) (and of row i of a C that has rows) only
+					if c.gemmBatchBad == "" {
+						for f, g := range got {
+							i := int64(f) / N
+							nm := map[string]bool{}
+							baseNames(g, nm, 0)
+							for n := range nm {
+								var idx int64
+								if len(n) < 2 || (n[0] != 'a' && n[0] != 'c') {
+									continue
+								}
+								if _, err := fmt.Sscanf(n[1:], "%d", &idx); err != nil {
+									continue
+								}
+								row := int64(-1)
+								switch {
+								case n[0] == 'a' && !ta:
+									row = idx / K
+								case n[0] == 'a' && ta:
+									row = idx % M
+								case n[0] == 'c' && len(csh) == 2 && csh[0] == M:
+									row = idx / csh[1]
+								}
+								if row >= 0 && row != i {
+									c.gemmBatchBad = fmt.Sprintf("%s: element [%d,%d] of the result (sample %d) is computed from %s, an element of sample %d", desc, i, int64(f)%N, i, n, row)
+								}
+							}
+						}
+					}
 					for i := int64(0); i < M; i++ {
 						for j := int64(0); j < N; j++ {
 							acc := pval{k: pStr, s: "0"}
@@ -844,7 +926,22 @@ func ruleGemmTable(c *Ctx, prop string) {
 		return
 	}
 	site := c.pos(oi.methods["Apply"].Pos())
+	c.gemmBatchBad = ""
 	known, bad, cells := c.gemmTable()
+	if prop == "C16" {
+		key := "R46:gemm-batch"
+		switch {
+		case c.gemmBatchBad != "":
+			c.violate("R46", key, site, c.gemmBatchBad)
+		case !known:
+			c.note("R46", key, site, "the provenance table cannot follow this code to one outcome per cell")
+		case bad != "":
+			c.note("R46", key, site, "the result is not Gemm's formula (reported under C04), but every element is made of its own sample's row")
+		default:
+			c.discharge("R46", key, site, fmt.Sprintf("%d cells: every element of row i of the result is made of row i of op(A) (and of row i of a C that has rows), of B, alpha and beta only", cells))
+		}
+		return
+	}
 	switch {
 	case !known:
 		c.note("R46", "R46:gemm-table", site, "the provenance table cannot follow this code to one outcome per cell; the structural rules R16 decide")
